@@ -482,7 +482,7 @@ def run_part_b(ctx, consts):
     rcases = []
     for custom in (1, 0):
         for variant in (0, 1, 2, 3):
-            for st, en in [(0, 0), (-4, 0), (-544, 64), (-26464, 0), (0, 4096), (INT_MIN, INT_MAX), (-rng.randint(1, 2 ** 30), rng.randint(0, 2 ** 30))]:
+            for st, en in [(0, 0), (-4, 0), (-544, 64), (-26464, 0), (0, 4096), (INT_MIN // 2, INT_MAX // 2), (-rng.randint(1, 2 ** 30), rng.randint(0, 2 ** 30))]:
                 rcases.append((custom, variant, st, en))
     rl = ['rs %d %d %d %d' % c for c in rcases]
     rres = lib.run_harness_resilient(builds['san'], rl)
